@@ -22,7 +22,7 @@ try:
 except Exception:
     LOCALS = {}
 
-PURE_FUNCS = {"len", "type", "isinstance", "str", "bool", "int", "float", "repr", "tuple", "list", "dict", "set", "sorted", "min", "max", "any", "all"}
+PURE_FUNCS = {"quote", "unquote", "join_key", "key_name", "key_extension", "len", "type", "isinstance", "str", "bool", "int", "float", "repr", "tuple", "list", "dict", "set", "sorted", "min", "max", "any", "all"}
 # methods without side effects in this code base (path constructors, printers, accessors)
 PURE_METHODS = {"path_for_key", "metadata_path_for_key", "to_path", "encode", "get", "segment_name", "is_volatile", "is_dir", "contains",
                 "startswith", "endswith", "split", "join", "lower", "upper", "strip", "items", "keys", "values", "key_name", "key_extension",
@@ -73,12 +73,77 @@ def _blocks_of(node):
         yield h.body
 
 
-def _inline_new_locals(fn, known):
+def _eliminate_alias(fn, known):
+    """`escaped = token` where `escaped` is a local the reference function does not have and `token` is never mentioned again after
+    that statement: the alias is renamed back to `token` (the copy-a-parameter-into-a-fresh-name refactor)."""
+    stores = {}
+    for n in ast.walk(fn):
+        if isinstance(n, (ast.FunctionDef, ast.AsyncFunctionDef, ast.Lambda)) and n is not fn:
+            return 0
+    body_nodes = list(ast.walk(fn))
+    for st in body_nodes:
+        if isinstance(st, ast.Assign) and len(st.targets) == 1 and isinstance(st.targets[0], ast.Name) and isinstance(st.value, ast.Name):
+            t, y = st.targets[0].id, st.value.id
+            if t == y:
+                continue
+            if t in known and y not in known:
+                # reverse alias `t = fresh` where `fresh` is a local the reference function does not have, is never mentioned after this
+                # statement, and `t` is not mentioned between the first mention of `fresh` and this statement: `fresh` *is* t
+                pos = lambda n: (n.lineno, n.col_offset)
+                ys = [n for n in body_nodes if isinstance(n, ast.Name) and n.id == y]
+                first_y = min(pos(n) for n in ys)
+                if any(pos(n) > pos(st.value) for n in ys):
+                    continue
+                if any(first_y <= pos(n) < pos(st.targets[0]) for n in body_nodes if isinstance(n, ast.Name) and n.id == t):
+                    continue
+                if any(isinstance(n, (ast.For, ast.While)) and any(x is st for x in ast.walk(n)) for n in body_nodes):
+                    continue
+                _Rename(y, t).visit(fn)
+                for node in ast.walk(fn):
+                    for b in _blocks_of(node):
+                        if st in b:
+                            b.remove(st)
+                            if not b:
+                                b.append(ast.copy_location(ast.Pass(), st))
+                return 1
+            if t in known:
+                continue
+            # first binding of t in source order, and y not mentioned anywhere after this statement
+            first = min((n.lineno, n.col_offset) for n in body_nodes if isinstance(n, ast.Name) and n.id == t)
+            if (st.targets[0].lineno, st.targets[0].col_offset) != first:
+                continue
+            after = [n for n in body_nodes if isinstance(n, ast.Name) and n.id == y and (n.lineno, n.col_offset) > (st.value.lineno, st.value.col_offset)]
+            if after:
+                continue
+            # the statement must not sit inside a loop (a second iteration would re-read y)
+            def in_loop(node, target, inside=False):
+                for ch in ast.iter_child_nodes(node):
+                    if ch is target:
+                        return inside
+                    r = in_loop(ch, target, inside or isinstance(ch, (ast.For, ast.While)))
+                    if r is not None:
+                        return r
+                return None
+            if in_loop(fn, st):
+                continue
+            _Rename(t, y).visit(fn)
+            # the assignment became `y = y`: drop it
+            for node in ast.walk(fn):
+                for b in _blocks_of(node):
+                    if st in b:
+                        b.remove(st)
+                        if not b:
+                            b.append(ast.copy_location(ast.Pass(), st))
+            return 1
+    return 0
+
+
+def _inline_new_locals(fn, known, limit=None):
     """a local the reference function does not have, assigned exactly once to a side-effect-free expression whose operands are not
     re-bound afterwards, and read only in the statements that follow the assignment in its block, is substituted into its uses
     (the inverse of the hoist-local refactor: `has_input = flag or value is not None; if extras is None and not has_input:`)."""
     done = 0
-    for _ in range(8):
+    for _ in range(8 if limit is None else limit):
         stores = {}
         nested_names = set()
         for n in ast.walk(fn):
@@ -399,14 +464,8 @@ def canonicalise(repo):
     done = []
     from .inline import inline_new_helpers
     done += inline_new_helpers(repo)
-    # (2) rename table
-    for (modname, qual), ent in TABLE.items():
-        if modname not in repo.modules:
-            continue
-        m = repo.modules[modname]
-        fn = _find_fn(m, qual)
-        if fn is None:
-            continue
+    # (2) rename table and (3) new locals, interleaved: a substitution may complete the defining form of another local
+    def rename_pass(modname, qual, fn, ent):
         for _ in range(3):     # a few rounds: patterns mention other locals only as metavariables, so one is usually enough
             changed = False
             for canonical, forms in ent.items():
@@ -425,15 +484,22 @@ def canonicalise(repo):
                 break
         for old, new in _negated_definitions(fn, ent):
             done.append((modname, qual, f"not {old}", new))
-    # (3) new locals
+
     for (modname, qual), known in LOCALS.items():
         if modname not in repo.modules:
             continue
         fn = _find_fn(repo.modules[modname], qual)
-        if fn is not None:
-            k = _inline_new_locals(fn, set(known))
-            if k:
-                done.append((modname, qual, "<new locals substituted>", k))
+        if fn is None:
+            continue
+        ent = TABLE.get((modname, qual), {})
+        known = set(known)
+        for _ in range(12):
+            if ent:
+                rename_pass(modname, qual, fn, ent)
+            k = _eliminate_alias(fn, known) or _inline_new_locals(fn, known - set(), limit=1)
+            if not k:
+                break
+            done.append((modname, qual, "<new local substituted>", k))
     # (4), (5)
     for m in repo.modules.values():
         for fn in ast.walk(m.tree):
